@@ -5,8 +5,9 @@
 
   The state is the Python dict `DOK.data` as an insertion-ordered association list
   (`data[k] = v` on an existing key keeps its position, a new key is appended, `del data[k]` removes
-  it).  Keys are tuples of Python ints, so `DKey = List Int`: `_fancy_setitem` stores the index
-  entries it is given *without* normalising them, and the model does the same.
+  it).  Keys are tuples of Python ints, so `DKey = List Int` (a model with natural-number keys could not
+  have expressed the raw negative keys `_fancy_setitem` stored before /repo commit 6ad05a9; today every
+  path normalises its indices first and the theorems show that only in-range keys are ever stored).
 
   Slice bounds come from a parameter `bounds` so that the theorems can be stated once for every
   bounds function; the model of the code is the instance `bounds := Gen.dokSliceBounds`, which
@@ -198,8 +199,8 @@ def storeAll [DecidableEq α] (fill : α) : List (DKey × α) → List (DKey × 
   | es, [] => es
   | es, (k, x) :: ws => storeAll fill (store fill es k x) ws
 
-/-- the checks of `__setitem__` / `__getitem__` on a tuple of index lists.  The lists arrive as
-Python lists: an empty one becomes a float64 array and is rejected by the integer-dtype test. -/
+/-- the checks of `__setitem__` / `__getitem__` on a tuple of index lists: one list per axis
+(else NotImplementedError), all of one length (else IndexError); returns that length -/
 def fancyCheck (shape : List Nat) (idxs : List (List Int)) : Except Err Nat :=
   if idxs.length ≠ shape.length then .error .notImplemented
   else
